@@ -884,6 +884,13 @@ def tie(tier, seed, replay):
                              what="correspondence Index/IndexModel.v (%s) vs ascent::internal on output %d: impl %r model %r  [history: %s]" % (
                                  t, j, ci[j] if j < len(ci) else None, cm[j] if j < len(cm) else None, case_line(c))))
     nfail = len(unequal_eqn_fail)
+    # the model index types UNDER the generated code: Engine/ConcreteEval.v (every index field a value of IndexModel.v's hvec / fmap,
+    # every step the modelled operation) on FRONT-dumped plans vs the real index fields of compiled programs after run() / push; run()
+    conc = None
+    if not replay:
+        from .. import concrete_tie
+        conc = concrete_tie.run_tie(tier, seed, tag="concrete_c19" + ("" if tier == "quick" else "t"))
+        mism += conc["mismatches"]
     samples = []
     fam = collections.Counter(c.get("family", "corpus") for c in cases)
     for t in TYPES:
@@ -908,7 +915,8 @@ def tie(tier, seed, replay):
                                   histories_leaving_freeze_protocol=n_viol, cni_unequal_shard_counts=n_unequal,
                                   dashmap_shards=SUITES),
                 mismatches=mism,
-                extra=dict(partial=[
+                extra=dict(engine_on_model_types_vs_real_index_fields=(dict(conc["coverage"], index_field_comparisons=conc["evaluations"], rule=conc["rule"]) if conc else None), partial=[
+                    "Engine/ConcreteEval.v: the generated `len_estimate() <= len_estimate()` join-order decision is covered by the simulation theorem only for plans without reorderable simple joins (c19_engine_real_len_estimate_partial); with them the decision is an oracle, as in Engine/Eval.v",
                     "CRelIndex::len_estimate (samples the first four shards) has no theorem: it is an estimate; only model = implementation is checked",
                     "whole-history (all operation sequences) theorems are stated for RelIndexType1 (c19_hv_history) and for the CRelIndex stratum protocol (c19_cri_stratum_protocol); "
                     "for the other types each operation is proved to commute with the abstraction and to preserve the invariant (composition by induction is not spelled out)",
